@@ -24,15 +24,33 @@ VERIF = os.path.dirname(HERE)
 
 
 def load_mutants(prop):
+    out = []
     try:
         mod = importlib.import_module('selftest.mutants.%s' % prop.lower())
+        out = list(mod.MUTANTS)
     except ImportError:
-        return []
-    return list(mod.MUTANTS)
+        pass
+    # independently seeded breakages kept under /verif/seeded/<id>/
+    sdir = os.path.join(VERIF, 'seeded')
+    if os.path.isdir(sdir):
+        for sid in sorted(os.listdir(sdir)):
+            mp = os.path.join(sdir, sid, 'meta.json')
+            pp = os.path.join(sdir, sid, 'patch.diff')
+            if os.path.exists(mp) and os.path.exists(pp):
+                meta = json.load(open(mp))
+                if meta.get('breaks_property') == prop and meta.get('expect', 'violation') == 'violation':
+                    out.append({'name': 'seed:' + sid, 'patch': pp, 'expect': 'violation'})
+    return out
 
 
 def _apply(root, m):
     """Apply the edit(s) of mutant m under root. Returns None if ok, else reason."""
+    if m.get('patch'):
+        p = subprocess.run(['git', 'apply', '--whitespace=nowarn', m['patch']], cwd=root,
+                           capture_output=True, text=True)
+        if p.returncode != 0:
+            return 'patch does not apply to the current tree: %s' % p.stderr.strip()[:200]
+        return None
     edits = m.get('edits') or [(m['file'], m['old'], m['new'])]
     for rel, old, new in edits:
         path = os.path.join(root, rel)
